@@ -19,8 +19,8 @@ ASSUMPTIONS = [
     "libsecp256k1 runs unsanitised; GNU readline is replaced by the simulated user",
 ]
 TIERS = {
-    "quick": {"cases": 1400, "flavours": ("asan",), "cap_s": 600},
-    "thorough": {"cases": 60000, "flavours": ("asan",), "cap_s": 3 * 3600},
+    "quick": {"cases": 6000, "flavours": ("asan",), "cap_s": 600},
+    "thorough": {"cases": 250000, "flavours": ("asan",), "cap_s": 3 * 3600},
 }
 SHRINK_LISTS = ["walk", "stack", "faults"]
 
@@ -137,11 +137,13 @@ def evaluate(ctx, scn):
     prev_wb = None
     walk_len = len(items) - (ref.L + 2)
     trace = []
+    # with a failing stdout the observers' output is cut: the black-box layer is blind, the white-box one is not
+    sink_fault = any(f["kind"] == "SINK_ERR" for f in scn.get("faults", []))
     for ci, c in enumerate(cmds):
         if c.reply is None:
             break
         wb = session.wb_state(c.post)
-        bb = session.bb_state(c)
+        bb = None if sink_fault else session.bb_state(c)
         kind = c.kind
         if ci == 0:
             prev_bb, prev_wb = bb, wb
